@@ -144,7 +144,7 @@ theorem c19_no_lost_update_partial (d0 : Content) (tr : List Step)
 
 /-- **Version chain** ("successes form a chain v → v+1"): every successful write returns
 `expected + 1`, and the versions of the successive successes strictly increase. -/
-theorem c19_version_chain (d0 : Content) (tr : List Step)
+theorem c19_version_chain_partial (d0 : Content) (tr : List Step)
     (hv : ∀ st ∈ tr, st.versioned = true) (hlen : 2 * tr.length + 2 < u64Max) :
     (∀ ev ∈ (run (init d0) tr).successes, ev.version = ev.expected + 1) ∧
     (run (init d0) tr).successes.Pairwise (fun a b => a.version < b.version) := by
@@ -152,7 +152,7 @@ theorem c19_version_chain (d0 : Content) (tr : List Step)
   exact ⟨fun ev hev => (h.succ_ok ev hev).1, h.sorted⟩
 
 /-- **Disk = last success** ("the file always equals the content of the last successful write"). -/
-theorem c19_disk_is_last_success (d0 : Content) (tr : List Step)
+theorem c19_disk_is_last_success_partial (d0 : Content) (tr : List Step)
     (hv : ∀ st ∈ tr, st.versioned = true) (hlen : 2 * tr.length + 2 < u64Max) :
     (run (init d0) tr).disk = some (match (run (init d0) tr).successes.getLast? with
       | some ev => ev.content
